@@ -129,3 +129,25 @@ Theorem C19_environment_names_ignoring_case_refuted :
   exists r, root_via_file r = None.
 Proof. exists (mkRoot [("envA", [("X", "1")]); ("ENVa", [])] [] []). exact same_name_ignoring_case_refuted. Qed.
 Print Assumptions C19_environment_names_ignoring_case_refuted.
+
+(* ---- the cleanup of Dosini.dump(update_existing=True) is needed: a write that replaces every file it produces but removes
+   nothing (Rewrite.overwrite_dir) leaves the stage file of a stage that no longer holds a component, and the load of the instance
+   discovers it: the previous version's components come back (class of the seeded regression C19_m9; run on the real code by
+   stream R) *)
+Require Import V.Dosini.Rewrite.
+Theorem C19_rewrite_without_cleanup_refuted :
+  exists old fresh f, reads true f = true /\ lookup f fresh = None /\ cleaned true f = true /\
+                      lookup f (overwrite_dir true old fresh) = Some "previous version".
+Proof.
+  exists [("stages.d/stage0.instance.conf", "a1"); ("stages.d/stage1.instance.conf", "previous version")],
+         [("experiment.instance.conf", "e2"); ("stages.d/stage0.instance.conf", "a2")], "stages.d/stage1.instance.conf".
+  vm_compute. repeat split; reflexivity.
+Qed.
+Print Assumptions C19_rewrite_without_cleanup_refuted.
+
+(* the rendering matters: with the lower-casing rendering of the boolean OPTIONS (Codec.encv DBool) a variable holding the boolean
+   True is stored as true, and a reference to it reads another text than in the description (class of C19_m10) *)
+Theorem C19_meta_bool_rendering_refuted :
+  exists v, scalar v = true /\ encv DBool v <> pystr v.
+Proof. exists (VBool true). split; [reflexivity|vm_compute; discriminate]. Qed.
+Print Assumptions C19_meta_bool_rendering_refuted.
